@@ -345,7 +345,7 @@ def eval_rvalue(fr, rv, ctx):
     m = re.fullmatch(r'(?:std::option::)?Option::<.*>::Some\((.*)\)', rv)
     if m: return Enum('Some', [eval_operand(fr, m.group(1), ctx)])
     if re.fullmatch(r'(std::option::)?Option::<.*>::None', rv): return Enum('None', [])
-    m = re.fullmatch(r'std::result::Result::<.*>::(Ok|Err)\((.*)\)', rv)
+    m = re.fullmatch(r'(?:std::result::)?Result::<.*>::(Ok|Err)\((.*)\)', rv)
     if m: return Enum(m.group(1), [eval_operand(fr, m.group(2), ctx)])
     m = re.fullmatch(r'\{closure@[^}]*\} \{(.*)\}', rv)
     if m:
